@@ -41,7 +41,7 @@ if [ ! -x "$bin" ]; then
   fi
   mv "$bin.tmp$$" "$bin"
   # keep the cache small: drop entries older than the 40 newest (parallel runs against different trees must not evict each other)
-  ls -t .cache/vcheck-* 2>/dev/null | tail -n +41 | xargs -r rm -f
-  ls -dt .cache/instr-* 2>/dev/null | tail -n +41 | xargs -r rm -rf
+  { ls -t .cache/vcheck-* 2>/dev/null | tail -n +41 | xargs -r rm -f; } || true   # a concurrent build's temp file may vanish under ls
+  { ls -dt .cache/instr-* 2>/dev/null | tail -n +41 | xargs -r rm -rf; } || true
 fi
 echo "$VERIF_ROOT/$bin"
